@@ -31,6 +31,8 @@ import (
 
 var flagC20File = flag.String("c20file", "", "case file for the C20 child process")
 var flagC20Skip = flag.Int("c20skip", 0, "number of cases of the file to skip")
+var flagC20Count = flag.Int("c20count", 0, "number of cases to decode (0: all that remain)")
+var flagC20HangS = flag.Int("c20hang", 10, "seconds after which a decode counts as not returning")
 
 const c20AllocBase = 16 << 20
 const c20AllocPerByte = 256
@@ -145,7 +147,7 @@ func TestC20Child(t *testing.T) {
 		}()
 		select {
 		case <-doneCh:
-		case <-time.After(10 * time.Second):
+		case <-time.After(time.Duration(*flagC20HangS) * time.Second):
 			// decoding does not return: report and let the parent restart behind this case
 			fmt.Fprintf(out, "H %d\n", i)
 			out.Flush()
@@ -159,6 +161,9 @@ func TestC20Child(t *testing.T) {
 			fmt.Fprintf(out, "D %d %d\n", i, alloc)
 		}
 		i++
+		if *flagC20Count > 0 && i >= *flagC20Count {
+			break
+		}
 	}
 	out.Flush()
 }
@@ -544,6 +549,39 @@ func runC20(c *Ctx) {
 		tail := string(outp)
 		if len(tail) > 300 {
 			tail = tail[len(tail)-300:]
+		}
+		if !strings.HasPrefix(c20class(cs), "dep:") {
+			// a decode of spynode's own that exceeded ten seconds of wall clock or whose process
+			// died: the machine may be starved (sixteen workers, dependency decoders allocating
+			// gigabytes next door), so the case is decoded once more, alone, with two minutes,
+			// before it is called a hang or a fatal allocation
+			confirmed := true
+			again := exec.Command(os.Args[0], "-test.run", "^TestC20Child$", "-test.timeout", "0", "-c20file", path,
+				"-c20skip", strconv.Itoa(next+started), "-c20count", "1", "-c20hang", "120")
+			again.Env = append(os.Environ(), "GOMAXPROCS=1", "GOMEMLIMIT=off")
+			o2, _ := again.Output()
+			for _, line := range strings.Split(string(o2), "\n") {
+				f := strings.SplitN(line, " ", 4)
+				if len(f) < 3 || (f[0] != "D" && f[0] != "P") {
+					continue
+				}
+				confirmed = false
+				c.Probe("slow_decode_not_a_hang")
+				alloc, _ := strconv.ParseUint(f[2], 10, 64)
+				if f[0] == "P" {
+					msg := ""
+					if len(f) > 3 {
+						msg = f[3]
+					}
+					c.Violate("panic", c20class(cs), "decoding panicked (%s): %s; input %d bytes: %s", cs.note, msg, len(cs.data), hexHead(cs.data))
+				} else if alloc > uint64(c20AllocBase+c20AllocPerByte*len(cs.data)) {
+					c.Violate("alloc", c20class(cs), "decoding %d input bytes allocated %d bytes (%s); input: %s", len(cs.data), alloc, cs.note, hexHead(cs.data))
+				}
+			}
+			if !confirmed {
+				next += started + 1
+				continue
+			}
 		}
 		if hung {
 			hangs[cs.kind]++
